@@ -62,8 +62,22 @@ QualCycles == {[p \in Pairs |-> IF p = <<1, 2>> THEN lb ELSE IF p = <<2, 1>> THE
 MuslLabs == {[p \in Pairs |-> IF p = e THEN lb ELSE "none"] : e \in {<<1, 2>>, <<2, 1>>}, lb \in {"linux-any", "kbsd-only", "not-kbsd", "kbsd-fallback", "dep"}}
 \* every .dsc decoded into ONE reused variable (a Decoder loop) before ordering: three-source chains in every input order
 ChainLabs == {[p \in Pairs |-> IF p \in {<<1, 2>>} THEN "dep" ELSE IF N >= 3 /\ p = <<2, 3>> THEN "dep" ELSE "none"]}
-ASSUME Emit(SetToSeq({Vec(lab, fo) : lab \in Labelings, fo \in BOOLEAN} \cup {SelfVec} \cup SelfVecs
+\* source names with dashes whose concatenations coincide (lib + net-tools, lib-net + tools): net-tools needs lib, tools needs
+\* lib-net, in three input orders; and the cycle lib <-> net-tools
+nLib == <<108, 105, 98>>  nNet == <<110, 101, 116>>  nTools == <<116, 111, 111, 108, 115>>
+DName(a, b) == a \o <<HYPHEN>> \o b
+DSrc(nm, dep) == [name |-> nm, binaries |-> <<nm \o <<HYPHEN, 120>>, nm \o <<HYPHEN, 121>>>>,
+                  fields |-> << (IF dep = <<>> THEN <<>> ELSE << <<[name |-> dep \o <<HYPHEN, 121>>, restr |-> "none"]>> >>), <<>>, <<>> >>]
+DashGraphs == {<<DSrc(nTools, DName(nLib, nNet)), DSrc(DName(nNet, nTools), nLib), DSrc(nLib, <<>>), DSrc(DName(nLib, nNet), <<>>)>>,
+               <<DSrc(DName(nNet, nTools), nLib), DSrc(nTools, DName(nLib, nNet)), DSrc(DName(nLib, nNet), <<>>), DSrc(nLib, <<>>)>>,
+               <<DSrc(nLib, <<>>), DSrc(DName(nLib, nNet), <<>>), DSrc(nTools, DName(nLib, nNet)), DSrc(DName(nNet, nTools), nLib)>>,
+               \* ... and with lib build-depending on net-tools: a cycle
+               <<DSrc(nTools, DName(nLib, nNet)), DSrc(DName(nNet, nTools), nLib), DSrc(nLib, DName(nNet, nTools)), DSrc(DName(nLib, nNet), <<>>)>>}
+DashVecs == {[k |-> "order", sources |-> g, folded |-> FALSE, dscs |-> [j \in 1..Len(g) |-> RenderDsc(g[j], FALSE)]] : g \in DashGraphs}
+ASSUME Emit(SetToSeq({Vec(lab, fo) : lab \in Labelings, fo \in BOOLEAN} \cup {SelfVec} \cup SelfVecs \cup DashVecs
                      \cup {Vec(lab, FALSE) : lab \in QualLabs \cup QualCycles})
             \o SetToSeq({[Vec(lab, FALSE) EXCEPT !.k = "order"] @@ [target |-> "musl-linux-amd64"] : lab \in MuslLabs})
-            \o SetToSeq({Vec(lab, fo) @@ [reuse |-> TRUE] : lab \in Labelings \cup ChainLabs, fo \in {FALSE}}))
+            \o SetToSeq({Vec(lab, fo) @@ [reuse |-> TRUE] : lab \in Labelings \cup ChainLabs, fo \in {FALSE}})
+            \* the same parsed sources are ordered for i386 first and for the target afterwards
+            \o SetToSeq({Vec(lab, FALSE) @@ [prewarm |-> "i386"] : lab \in QualLabs \cup QualCycles}))
 =============================================================================
